@@ -42,10 +42,14 @@ def parse(abbr: str, config: Config):
     if text:
         config.user_config['text'] = None
 
-    snippets(abbr, config)
-    bem_lookup = {}
-    walk(abbr, lambda node, ancestors, state: transform(node, ancestors, state, bem_lookup), config)
-    config.user_config['text'] = text
+    try:
+        snippets(abbr, config)
+        bem_lookup = {}
+        walk(abbr, lambda node, ancestors, state: transform(node, ancestors, state, bem_lookup), config)
+    finally:
+        if text:
+            config.user_config['text'] = text
+
     return abbr
 
 def stringify(abbr: Abbreviation, config: Config):
